@@ -18,13 +18,23 @@ Contracts on the REAL `ParquetFile.to_pandas(filters=F, row_filter=True|mask)` a
                       number of rows (of the row groups selected by `filters`) raises.
   c13.null_semantics  strict reading (the design's spec.filter_sat: null never satisfies) on a handful of
                       negative-operator atoms over columns with nulls.
-  c13.mask_plumbing   canonical cases of the known-broken mask application inside page decoding (v2 pages;
-                      several v1 pages per chunk; nulls before the first selected row).
+  c13.mask_plumbing   canonical cases of the mask application inside page decoding: v2 pages (known-broken
+                      families), several v1 pages per chunk and nulls before the first selected row (repaired in
+                      /repo by e953da1; kept as regression cases).
 
-The page-decoding mask plumbing of the pinned tree is broken for whole families of (page layout, column kind,
+The v2 page-decoding mask plumbing of the pinned tree is broken for whole families of (page layout, column kind,
 mask) - see findings.  c13.rows / c13.mask therefore do not enumerate the alignment part of a case when some
 (row group, output column, mask slice) lies in the conservative exclusion predicate `bad_plumbing` (the count part
 is still evaluated); the families are represented by the canonical cases of c13.mask_plumbing instead.
+
+Column chunks of SEVERAL data pages: the datasets flat3 / idx_dt / hive_pi (2 pages) and pages_v1 (5 pages for the
+8-byte columns, 3 for text), pages_v1_tiny (one row per page; 3 pages for the categorical) and pages_v2 are written
+with a small fastparquet.writer.MAX_PAGE_SIZE (set inside the recipe, restored afterwards).  v1 chunks of several
+pages are enumerated in full: every filter program with row_filter=True and every mask, including masks built from
+the REAL page boundaries (read off the page headers): first / last row of every page, all but the first / last
+row of every page, even / odd pages only, everything but page 0, last page only, one row per page except page 1.
+The feature `pages` records the largest page count of a chunk read through the mask path and whether some page
+without a selected row precedes a page with one (':holes').
 """
 import concurrent.futures as cf
 import os
@@ -40,7 +50,10 @@ from runtime.harness import Case, tmpdir, import_fastparquet
 G_ROWS, G_MASK, G_NULL, G_PLUMB = "c13.rows", "c13.mask", "c13.null_semantics", "c13.mask_plumbing"
 
 DATASETS = ["flat1", "flat3", "flat4v2", "flat2v2", "hive0", "hive_pi", "hive_ps_pb", "hive_pt", "drill_pi_ps",
-            "idx_dt", "one_row"]
+            "idx_dt", "one_row"] + list(D.PAGES)
+# filter columns of the multi-page datasets in the quick tier (thorough: all)
+QUICK_COLS = {"pages_v1": ["rid", "i", "f", "s", "c", "t", "n"], "pages_v2": ["rid", "i", "s", "t"],
+              "pages_v1_tiny": ["rid", "i", "c", "s"]}
 FOREIGN = ["nation.plain.parquet", "test.parquet", "split", "multi_rgs_pyarrow"]
 ORDER_OPS = ("<", "<=", ">", ">=")
 
@@ -58,14 +71,18 @@ def make_view(fp, root, name):
     cur = [None]
     o1, o2 = fp.core.read_data_page, fp.core.read_data_page_v2
 
+    pagerows = {}
+
     def w1(f, sh, ph, cmd, *a, **k):
         key = (cur[0], ".".join(cmd.path_in_schema))
         calls[key] = (1, calls.get(key, (1, 0))[1] + 1)
+        pagerows.setdefault(key, []).append(int(ph.data_page_header.num_values))
         return o1(f, sh, ph, cmd, *a, **k)
 
     def w2(f, sh, se, dh, cmd, *a, **k):
         key = (cur[0], ".".join(cmd.path_in_schema))
         calls[key] = (2, calls.get(key, (2, 0))[1] + 1)
+        pagerows.setdefault(key, []).append(int(dh.num_rows if dh.num_rows is not None else dh.num_values))
         return o2(f, sh, se, dh, cmd, *a, **k)
     view = M5._view(fp, root, name)
     fp.core.read_data_page, fp.core.read_data_page_v2 = w1, w2
@@ -76,6 +93,7 @@ def make_view(fp, root, name):
     finally:
         fp.core.read_data_page, fp.core.read_data_page_v2 = o1, o2
     view.layout = calls            # (rg, column) -> (page version, number of data pages)
+    view.pagerows = pagerows       # (rg, column) -> rows of each data page, from the page headers (flat columns)
     full = view.full
     view.outcols = [c for c in full.columns]
     view.key = "rid" if view.ds.src is not None else None
@@ -137,6 +155,81 @@ def any_bad(view, cols, mask, rgs=None):
             if bad_plumbing(view, j, c, mask[lo:hi]):
                 return True
     return False
+
+
+def pages_feature(view, cols, mask, rgs=None):
+    """Largest number of data pages of a chunk that is read through the mask path (row group partially selected,
+    column not path-derived): '0' no chunk goes through the mask path, '1', '2', '3+';  followed by ':holes' when in
+    such a chunk some page has no selected row while a later page of the chunk has one."""
+    cols = list(cols if cols is not None else view.outcols)
+    if view.ds.index_col and view.ds.index_col not in cols:
+        cols.append(view.ds.index_col)
+    best, holes = 0, False
+    for j in (rgs if rgs is not None else range(view.nrg)):
+        lo, hi = view.offsets[j], view.offsets[j + 1]
+        m = mask[lo:hi]
+        s = int(m.sum())
+        if s == 0 or s == len(m):
+            continue
+        for c in cols:
+            if c in view.partcols:
+                continue
+            sizes = view.pagerows.get((j, c)) or [len(m)]
+            best = max(best, len(sizes))
+            if sum(sizes) == len(m) and len(sizes) > 1:
+                per = [int(x.sum()) for x in np.split(m, np.cumsum(sizes)[:-1])]
+                seen = False
+                for x in per[::-1]:
+                    if x:
+                        seen = True
+                    elif seen:
+                        holes = True
+    return ("3+" if best >= 3 else str(best)) + (":holes" if holes else "")
+
+
+def page_masks(view):
+    """Masks built from the REAL page boundaries of up to two reference columns (the row-id column and the column
+    with the most pages): rows kept in every page / no row kept in some pages."""
+    n = len(view.full)
+    out = []
+    multi = {}
+    for (j, c), sizes in view.pagerows.items():
+        if c in view.full.columns and len(sizes) > 1 and sum(sizes) == view.rg_rows[j]:
+            multi[c] = max(multi.get(c, 0), len(sizes))
+    if not multi:
+        return out
+    refs = []
+    if view.key in multi:
+        refs.append(view.key)
+    most = max(sorted(multi), key=lambda c: multi[c])
+    if most not in refs and (not refs or multi[most] != multi[refs[0]] or True):
+        refs.append(most)
+    other = [c for c in sorted(multi) if c not in refs and multi[c] != multi[refs[0]]]
+    refs += other[:1]
+    for c in refs[:3]:
+        page_of_row = np.full(n, -1)
+        first = np.zeros(n, bool)
+        last = np.zeros(n, bool)
+        lastpage = np.zeros(n, bool)
+        for j in range(view.nrg):
+            sizes = view.pagerows.get((j, c)) or [view.rg_rows[j]]
+            if sum(sizes) != view.rg_rows[j]:
+                sizes = [view.rg_rows[j]]
+            pos = view.offsets[j]
+            for p, r in enumerate(sizes):
+                if r:
+                    page_of_row[pos:pos + r] = p
+                    first[pos] = True
+                    last[pos + r - 1] = True
+                    if p == len(sizes) - 1:
+                        lastpage[pos:pos + r] = True
+                pos += r
+        out += [("page_firsts@" + c, first), ("page_lasts@" + c, last), ("page_all_but_first_row@" + c, ~first),
+                ("page_all_but_last_row@" + c, ~last), ("even_pages_only@" + c, page_of_row % 2 == 0),
+                ("odd_pages_only@" + c, page_of_row % 2 == 1), ("not_page0@" + c, page_of_row != 0),
+                ("last_page_only@" + c, lastpage), ("page_firsts_but_page1@" + c, first & (page_of_row != 1)),
+                ("page1_whole+firsts@" + c, first | (page_of_row == 1))]
+    return out
 
 
 def expected_frame(view, pos, cols):
@@ -281,6 +374,7 @@ def mask_patterns(view, seed):
     rnd = random.Random(seed)
     for dens in (0.3, 0.7):
         out.append(("random%.1f" % dens, np.array([rnd.random() < dens for _ in range(n)], dtype=bool)))
+    out += page_masks(view)
     return out
 
 
@@ -392,8 +486,8 @@ def run_rows(args):
     cols = M5._filter_columns(view)
     if view.ds.foreign:
         cols = cols[:4]
-    elif tier == "quick" and M5.QUICK_COLS.get(name):
-        cols = [c for c in M5.QUICK_COLS[name] if c in cols]
+    elif tier == "quick" and (QUICK_COLS.get(name) or M5.QUICK_COLS.get(name)):
+        cols = [c for c in (QUICK_COLS.get(name) or M5.QUICK_COLS[name]) if c in cols]
     progs = M5.programs(view, cols, tier)
     stride = 2 if tier == "quick" else 1
     progs = progs[::stride][sel[0]::sel[1]]
@@ -420,6 +514,7 @@ def run_rows(args):
         except Exception as e:
             what, aligned = "%s: %s" % (type(e).__name__, str(e)[:200]), True
         feats["aligned_checked"] = aligned
+        feats["pages"] = pages_feature(view, ocols, sat & kept if kept is not None else sat)
         if not aligned and label != "no" and (tolerant or ("pruned_sat" in label and "partdrop" in label)):
             continue        # only a count could be evaluated and known regions with opposite effects on it (or the
             #                 interval reading) apply: uninformative
@@ -445,7 +540,8 @@ def run_masks(args):
         for cols, vname in variants:
             if any_bad(view, cols, mask):
                 continue
-            feats = {"ds": view.ds.name, "mask": mname, "cols": vname, "case": "select"}
+            feats = {"ds": view.ds.name, "mask": mname, "cols": vname, "case": "select",
+                     "pages": pages_feature(view, cols, mask)}
             try:
                 what = check_mask(view, mask, cols)
             except Exception as e:
@@ -507,6 +603,8 @@ PLUMB_CASES = [
     ("flat2v2", "n", "alt", "v2_nullable_with_nulls"), ("flat2v2", "an", "alt", "v2_nullable_with_nulls"),
     ("hive_pt", "n", "third", "v2_nullable_with_nulls"),
     ("flat4v2", "rid", "alt", "v2_multipage"), ("flat4v2", "t", "third", "v2_multipage"), ("flat4v2", "f", "alt", "v2_multipage"),
+    ("pages_v2", "rid", "page_firsts@rid", "v2_multipage"), ("pages_v2", "t", "even_pages_only@rid", "v2_multipage"),
+    ("pages_v2", "s", "page_all_but_first_row@s", "v2_multipage"), ("pages_v2", "i", "last_page_only@rid", "v2_multipage"),
     ("flat3", "s", "alt", "v1_multipage_nulls_shift_offset"), ("flat3", "f", "alt", "v1_multipage_nulls_shift_offset"),
     ("flat3", "n", "alt", "v1_multipage_nulls_shift_offset"), ("idx_dt", "s", "alt", "v1_multipage_nulls_shift_offset"),
     ("flat3", "s", "rg0_rows_10_11", "v1_page_without_selection"),
@@ -530,6 +628,8 @@ def _plumb_mask(view, col, mname):
         return m
     if mname == "rg0_rows_10_11":
         return (r == 10) | (r == 11)
+    if "@" in mname:
+        return dict(page_masks(view))[mname]
     raise ValueError(mname)
 
 
@@ -581,7 +681,10 @@ def run_bounded(ctx):
     ctx.bounded_group(G_MASK, rule=(
         "same datasets x masks {all, none, alternate, every third, first row, last row, first/last row of every row "
         "group, row group 0 only, all but row group 0, last row group only, prefix half, suffix half, 2 seeded "
-        "random densities} x column sets {all, key, pairs of columns, partition+data}; masks over the row groups "
+        "random densities; for datasets with multi-page chunks 10 masks per reference column (<= 3: row id, most pages, "
+        "another page count) built from the real page boundaries: first/last row of every page, all but first/last row "
+        "of every page, even/odd pages only, not page 0, last page only, page firsts except page 1, page 1 whole + "
+        "firsts} x column sets {all, key, pairs of columns, partition+data}; masks over the row groups "
         "selected by a filter; 4 wrong lengths (must raise ValueError). Cases in bad_plumbing are not enumerated."))
     ctx.bounded_group(G_NULL, rule="%d fixed (dataset, negative-operator atom on a column with nulls) cases, strict reading" % len(NULL_CASES))
     ctx.bounded_group(G_PLUMB, rule="%d fixed canonical (dataset, column, mask) cases, one or more per broken mask-plumbing family" % len(PLUMB_CASES))
